@@ -12,6 +12,7 @@ import (
 	"regexp"
 	"runtime"
 	"strings"
+	"sync"
 	"sync/atomic"
 	"time"
 
@@ -308,21 +309,52 @@ var c20DamageInTag bool
 var c20GiveUp bool
 var c20Cycles int
 
+// c20Mu guards the result record shared by the sequential consumer goroutine and its supervisor.
+var c20Mu sync.Mutex
+
 // c20SeqConsumer is the documented usage: drain entries until closed, then errors.
 func c20SeqConsumer(entries <-chan uniprot.Entry, errs <-chan error, res *c20Result, phase *int32, fin chan<- struct{}) {
 	for e := range entries {
+		c20Mu.Lock()
 		res.entries = append(res.entries, e)
+		c20Mu.Unlock()
 	}
+	c20Mu.Lock()
 	res.entriesClosed = true
+	c20Mu.Unlock()
 	atomic.StoreInt32(phase, 1)
 	for err := range errs {
+		c20Mu.Lock()
 		if res.nErrors == 0 {
 			res.firstErr = err.Error()
 		}
 		res.nErrors++
+		c20Mu.Unlock()
 	}
+	c20Mu.Lock()
 	res.errorsClosed = true
+	c20Mu.Unlock()
 	fin <- struct{}{}
+}
+
+// c20Snapshot copies the shared result under the lock.
+func c20Snapshot(res *c20Result) c20Result {
+	c20Mu.Lock()
+	defer c20Mu.Unlock()
+	out := *res
+	out.entries = append([]uniprot.Entry(nil), res.entries...)
+	return out
+}
+
+// c20Dump takes a goroutine dump of the whole process.
+func c20Dump() string {
+	buf := make([]byte, 1<<20)
+	n := runtime.Stack(buf, true)
+	for n == len(buf) && len(buf) < 1<<28 {
+		buf = make([]byte, 2*len(buf))
+		n = runtime.Stack(buf, true)
+	}
+	return string(buf[:n])
 }
 
 func runUniprot(r *rand.Rand, data []byte, concurrent bool, capE, capErr int, dribble int) c20Result {
@@ -347,56 +379,81 @@ func superviseUniprot(entries chan uniprot.Entry, errs chan error, done chan str
 		go c20SeqConsumer(entries, errs, res, &phase, fin)
 		tick := time.NewTicker(2 * time.Millisecond)
 		defer tick.Stop()
-		consecutive := 0
+		consecutive, ticks := 0, 0
+		returned, panicMsg := false, ""
+		finish := func() c20Result {
+			out := c20Snapshot(res)
+			out.returned, out.panicMsg = returned, panicMsg
+			return out
+		}
 		for {
 			select {
 			case <-fin:
-				if !res.returned {
+				if !returned {
 					select {
 					case p := <-done:
-						res.returned, res.panicMsg = true, p
+						returned, panicMsg = true, p
 					case <-time.After(5 * time.Second):
 					}
 				}
-				return *res
+				return finish()
 			case p := <-done:
-				res.returned, res.panicMsg = true, p
+				returned, panicMsg = true, p
 				done = nil
 				if p != "" {
-					return *res
-				}
-				// Parse returned: if a channel was left open the consumer blocks forever; decide without blocking
-				time.Sleep(time.Millisecond)
-				for i := 0; i < 200 && len(fin) == 0; i++ {
-					time.Sleep(time.Millisecond)
-				}
-				if len(fin) == 0 {
-					return *res // entriesClosed / errorsClosed tell which channel stayed open
+					return finish()
 				}
 			case <-tick.C:
-				if atomic.LoadInt32(&phase) == 0 && cap(errs) > 0 && len(errs) == cap(errs) {
-					buf := make([]byte, 1<<20)
-					n := runtime.Stack(buf, true)
-					for n == len(buf) && len(buf) < 1<<28 {
-						buf = make([]byte, 2*len(buf))
-						n = runtime.Stack(buf, true)
+				ph := atomic.LoadInt32(&phase)
+				if returned {
+					// Parse is gone. If the consumer is parked on a channel that is open and empty, nothing can ever
+					// wake it: that channel was left open. Decided on the goroutine's state, not on elapsed time.
+					if (ph == 0 && len(entries) == 0) || (ph == 1 && len(errs) == 0) {
+						cs := goroutineStates(c20Dump(), "props.c20SeqConsumer(")
+						if allPrefixed(cs, "chan receive") && ((atomic.LoadInt32(&phase) == ph && ph == 0 && len(entries) == 0) || (atomic.LoadInt32(&phase) == ph && ph == 1 && len(errs) == 0)) {
+							select {
+							case <-fin: // it finished in the meantime
+								return finish()
+							default:
+							}
+							consecutive++
+							if consecutive >= 3 {
+								return finish() // entriesClosed / errorsClosed tell which channel stayed open
+							}
+							continue
+						}
 					}
-					dump := string(buf[:n])
+					consecutive = 0
+					continue
+				}
+				ticks++
+				if ticks%50 == 0 && ((ph == 0 && len(entries) == 0) || (ph == 1 && len(errs) == 0)) {
+					// a parser started by poly itself (uniprot.Read) cannot report its return: it has returned
+					// once no goroutine of the process is inside uniprot.Parse any more
+					if d := c20Dump(); !strings.Contains(d, "uniprot.Parse(") && !strings.Contains(d, "io/uniprot.Read") {
+						returned = true
+						continue
+					}
+				}
+				if ph == 0 && cap(errs) > 0 && len(errs) == cap(errs) {
+					dump := c20Dump()
 					ps := goroutineStates(dump, "uniprot.Parse(")
 					cs := goroutineStates(dump, "props.c20SeqConsumer(")
 					if allPrefixed(ps, "chan send") && allPrefixed(cs, "chan receive") && len(errs) == cap(errs) {
 						consecutive++
 						if consecutive >= 3 {
-							res.waitForCycle = fmt.Sprintf("parser goroutine [%s] with %d/%d errors queued, consumer [%s] on the entry channel", ps[0], len(errs), cap(errs), cs[0])
-							return *res
+							out := finish()
+							out.waitForCycle = fmt.Sprintf("parser goroutine [%s] with %d/%d errors queued, consumer [%s] on the entry channel", ps[0], len(errs), cap(errs), cs[0])
+							return out
 						}
 					} else {
 						consecutive = 0
 					}
 				}
 			case <-watchdog:
-				res.timedOut = true
-				return *res
+				out := finish()
+				out.timedOut = true
+				return out
 			}
 		}
 	}
